@@ -353,6 +353,11 @@ pub struct SpatialTrackDistances {
 impl SpatialTrackDistances {
 	#[must_use]
 	pub(crate) fn relative_distance(&self, distance: f32) -> f32 {
+		// an empty or inverted range has no falloff region: full volume up to
+		// `min_distance`, silence beyond it
+		if !(self.min_distance < self.max_distance) {
+			return if distance < self.min_distance { 0.0 } else { 1.0 };
+		}
 		let distance = distance.clamp(self.min_distance, self.max_distance);
 		(distance - self.min_distance) / (self.max_distance - self.min_distance)
 	}
